@@ -5,7 +5,6 @@ import (
 	"net/http"
 
 	"github.com/0xReLogic/Helios/internal/logging"
-	"github.com/0xReLogic/Helios/internal/utils"
 )
 
 // IPFilter provides IP-based access control with allow/deny lists
@@ -101,7 +100,12 @@ func (f *IPFilter) IsAllowed(ip string) bool {
 // Middleware returns an HTTP middleware that filters requests based on IP
 func (f *IPFilter) Middleware(next http.Handler) http.Handler {
 	return http.HandlerFunc(func(w http.ResponseWriter, r *http.Request) {
-		clientIP := utils.GetClientIP(r)
+		// Access control is decided on the peer address of the connection only: X-Forwarded-For and
+		// X-Real-IP are supplied by the client and must not be able to bypass the lists.
+		clientIP := r.RemoteAddr
+		if host, _, err := net.SplitHostPort(r.RemoteAddr); err == nil {
+			clientIP = host
+		}
 
 		if !f.IsAllowed(clientIP) {
 			logging.WithContext(r.Context()).Warn().
